@@ -30,8 +30,14 @@ func matchWords(p *Prog, l *Ledger, rule, construct string, fn *ssa.Function, pa
 	}
 	m := NewInterpModel(p, construct)
 	var params []AV
-	for _, prm := range fn.Params {
-		params = append(params, Sym(prm.Name()))
+	// the reference words name the receiver e and the parameters name, value by position, however the source spells them
+	positional := []string{"e", "name", "value"}
+	for i, prm := range fn.Params {
+		if i < len(positional) {
+			params = append(params, Sym(positional[i]))
+		} else {
+			params = append(params, Sym(prm.Name()))
+		}
 	}
 	mc := m.Explore(fn, params, nil)
 	l.States += mc.States
@@ -271,7 +277,6 @@ func checkNoDynamicScoping(p *Prog, l *Ledger) {
 		})
 	}
 }
-
 
 // checkEnvWalk: Get / Assign are the decision list "own table has the key → use it; else parent non-nil → the
 // same operation on exactly the parent; else error" — accepted in recursive form (a call of the same method on
